@@ -459,6 +459,12 @@ func vfC38Corpus() []Document {
 		{Name: "big.txt", Content: big.Bytes(), Branches: br},
 		{Name: "many.txt", Content: many.Bytes(), Branches: br},
 		{Name: "other.go", Content: []byte("package a\nfunc Other() {}\n"), Branches: br},
+		// typical targets of filtering options, so that a NEW option acting on them is observable by the rebuild-and-diff oracle
+		{Name: ".hidden.go", Content: []byte("package a\nfunc Hidden() {}\n"), Branches: br},
+		{Name: "vendor/dep/dep.go", Content: []byte("package dep\nfunc Dep() {}\n"), Branches: br},
+		{Name: "a_test.go", Content: []byte("package a\nfunc TestA() {}\n"), Branches: br},
+		{Name: "gen.pb.go", Content: []byte("// Code generated by protoc. DO NOT EDIT.\npackage a\n"), Branches: br},
+		{Name: "bin.dat", Content: []byte("abc\x00def"), Branches: br},
 	}
 }
 
